@@ -49,9 +49,29 @@ theorem checkSigners_ok (sc : List Nat) (ss : List Nat) (acc p : Int) :
         · rintro ⟨h, hp⟩
           exact ⟨fun j hj => h j (List.mem_cons_of_mem _ hj), by omega⟩
 
+/-- the executable "is the iteration of a bitfield" test is strict sortedness -/
+theorem increasing_iff : ∀ l : List Nat, increasing l = true ↔ l.Pairwise (· < ·)
+  | [] => by simp [increasing]
+  | [_] => by simp [increasing]
+  | a :: b :: l => by
+    have ih := increasing_iff (b :: l)
+    simp only [increasing, Bool.and_eq_true, decide_eq_true_eq]
+    rw [ih]
+    constructor
+    · rintro ⟨hab, hp⟩
+      refine List.Pairwise.cons ?_ hp
+      intro x hx
+      rcases List.mem_cons.1 hx with rfl | hx
+      · exact hab
+      · exact Nat.lt_trans hab ((List.pairwise_cons.1 hp).1 x hx)
+    · intro hp
+      have := List.pairwise_cons.1 hp
+      exact ⟨this.1 b (List.mem_cons_self ..), this.2⟩
+
 theorem verifySig_ok_iff (net : Nat) (t : Table) (c : Cert) :
     verifySig net t c = .ok () ↔
       ∃ sc tot ss, F3.Power.scaled (t.map (·.power)) = some (sc, tot) ∧ c.signers = some ss ∧
+        ss.Pairwise (· < ·) ∧
         (∀ i ∈ ss, i < t.length ∧ 0 < sc.getD i 0) ∧
         3 * sumScaled sc ss ≥ 2 * (tot : Int) ∧
         c.sig = .agg (ss.map (fun i => (i, keyAt t i))) ⟨net, c.inst, 0, decidePhase, c.comm, c.pt, c.chain⟩ := by
@@ -74,12 +94,24 @@ theorem verifySig_ok_iff (net : Nat) (t : Table) (c : Cert) :
       · rintro ⟨_, _, _, _, h, _⟩; cases h
     | some ss =>
       simp only
+      by_cases hinc : increasing ss = true
+      case neg =>
+        have hinc' : increasing ss = false := by simpa using hinc
+        simp only [hinc', Bool.not_false, if_true]
+        constructor
+        · intro h; cases h
+        · rintro ⟨sc', tot', ss', h1, h2, h0, _⟩
+          simp only [Option.some.injEq] at h2
+          subst h2
+          exact absurd ((increasing_iff _).mpr h0) hinc
+      have hpw := (increasing_iff ss).mp hinc
+      simp only [hinc, Bool.not_true, Bool.false_eq_true, if_false]
       cases hcs : checkSigners sc ss 0 with
       | error e =>
         simp only
         constructor
         · intro h; cases h
-        · rintro ⟨sc', tot', ss', h1, h2, h3, _⟩
+        · rintro ⟨sc', tot', ss', h1, h2, _, h3, _⟩
           simp only [Option.some.injEq, Prod.mk.injEq] at h1 h2
           obtain ⟨rfl, rfl⟩ := h1
           subst h2
@@ -94,13 +126,13 @@ theorem verifySig_ok_iff (net : Nat) (t : Table) (c : Cert) :
         · simp only [hstrong, Bool.not_true, Bool.false_eq_true, if_false]
           by_cases hsig : c.sig = expectedSig net t c ss
           · simp only [hsig, beq_self_eq_true, if_true, true_iff]
-            refine ⟨sc, tot, ss, rfl, rfl, by rw [← hlen]; exact hall, ?_, rfl⟩
+            refine ⟨sc, tot, ss, rfl, rfl, hpw, by rw [← hlen]; exact hall, ?_, rfl⟩
             rw [← hp']; exact hq.mp hstrong
           · have hsig' : (c.sig == expectedSig net t c ss) = false := by simpa using hsig
             simp only [hsig', Bool.false_eq_true, if_false]
             constructor
             · intro h; cases h
-            · rintro ⟨sc', tot', ss', h1, h2, _, _, h5⟩
+            · rintro ⟨sc', tot', ss', h1, h2, _, _, _, h5⟩
               simp only [Option.some.injEq, Prod.mk.injEq] at h1 h2
               obtain ⟨rfl, rfl⟩ := h1
               subst h2
@@ -109,7 +141,7 @@ theorem verifySig_ok_iff (net : Nat) (t : Table) (c : Cert) :
           simp only [hs', Bool.not_false, if_true]
           constructor
           · intro h; cases h
-          · rintro ⟨sc', tot', ss', h1, h2, _, h4, _⟩
+          · rintro ⟨sc', tot', ss', h1, h2, _, _, h4, _⟩
             simp only [Option.some.injEq, Prod.mk.injEq] at h1 h2
             obtain ⟨rfl, rfl⟩ := h1
             subst h2
@@ -317,20 +349,20 @@ theorem certValidB_iff (net : Nat) (t : Table) (next : Nat) (base : Option Tip) 
         | some ss =>
           rw [hsc, hss] at h5
           simp only [Bool.and_eq_true, List.all_eq_true, decide_eq_true_eq, beq_iff_eq] at h5
-          obtain ⟨⟨ha, hq⟩, hs⟩ := h5
-          refine ⟨sc, tot, ss, rfl, rfl, ha, ?_, hs⟩
+          obtain ⟨⟨⟨hi, ha⟩, hq⟩, hs⟩ := h5
+          refine ⟨sc, tot, ss, rfl, rfl, (increasing_iff ss).mp hi, ha, ?_, hs⟩
           unfold F3.Spec.Quorum.strong at hq
           simpa using hq
     · cases had : applyDiff t c.delta with
       | error e => rw [had] at h6; cases h6
       | ok r => rw [had] at h6; simp only [beq_iff_eq] at h6; rw [h6]
   · intro hv
-    obtain ⟨sc, tot, ss, hsc, hss, ha, hq, hs⟩ := hv.signed
+    obtain ⟨sc, tot, ss, hsc, hss, hi, ha, hq, hs⟩ := hv.signed
     refine ⟨⟨⟨⟨⟨⟨hv.inst, hv.chain_valid⟩, hv.chain_nonempty⟩,
       (baseMismatch_false_iff base c.chain).mpr hv.linked⟩, ?_⟩, ?_⟩, hv.committed⟩
     · rw [hsc, hss]
       simp only [Bool.and_eq_true, List.all_eq_true, decide_eq_true_eq, beq_iff_eq]
-      refine ⟨⟨ha, ?_⟩, hs⟩
+      refine ⟨⟨⟨(increasing_iff ss).mpr hi, ha⟩, ?_⟩, hs⟩
       unfold F3.Spec.Quorum.strong
       simpa using hq
     · rw [hv.delta]; simp
